@@ -24,6 +24,11 @@ ops:
                                  {"add": wc} | {"remove": name} |
                                  {"set": [name, key, value]} |
                                  {"circus": {key: value}}
+  ["conn", i]                    a client connects to managed socket i (the
+                                 connection stays pending until a worker of a
+                                 use_sockets watcher is spawned: the harness
+                                 accepts on the workers' behalf at that point)
+"sockets": ["unix" | "inet", ...] creates real managed CircusSockets.
 "config": true starts the daemon from an ini file rendered from "watchers"
 and "arbiter" (the reloadconfig command then re-reads that file).
 Every random choice is in the case; a run is a pure function of it.
@@ -88,6 +93,10 @@ class History(object):
         self.hook_log = []
         self._wref = [None]
         self.tmp = None
+        self.socks = []
+        self.clients = []
+        self.conn_log = []        # (t, socket index)
+        self.pending_conns = 0
         if case.get("config"):
             self._init_config(case)
             return
@@ -102,8 +111,21 @@ class History(object):
                                     self.hook_log), bool(spec[1])))
                     for hn, spec in hooks.items())
             watchers.append(wc)
+        aopts = dict(case.get("arbiter") or {})
+        if case.get("sockets"):
+            from circus.sockets import CircusSocket
+            self.tmp = tempfile.mkdtemp(prefix='vfw-sock-')
+            for i, kind in enumerate(case["sockets"]):
+                if kind == 'unix':
+                    self.socks.append(CircusSocket(
+                        name='s%d' % i,
+                        path=os.path.join(self.tmp, 's%d.sock' % i)))
+                else:
+                    self.socks.append(CircusSocket(
+                        name='s%d' % i, host='127.0.0.1', port=0))
+            aopts["sockets"] = list(self.socks)
         self.world = SimWorld(watchers=watchers,
-                              arbiter_opts=case.get("arbiter") or {},
+                              arbiter_opts=aopts,
                               tape=case.get("tape") or [],
                               default_beh=case.get("default_beh"),
                               periodic=case.get("periodic"),
@@ -113,6 +135,46 @@ class History(object):
         self.reqs = {}            # op index -> Req
         self.op_times = []
         self.started = False
+        if self.socks:
+            sockets_users = set(wc["name"] for wc in watchers
+                                if wc.get("use_sockets"))
+
+            def observer(rec):
+                if rec.get("owner") in sockets_users:
+                    self.accept_all()
+            self.world.kernel.spawn_observer = observer
+
+    def connect(self, i):
+        import socket as _socket
+        s = self.socks[i % len(self.socks)]
+        if s.fileno() == -1:
+            return
+        if s.is_unix:
+            c = _socket.socket(_socket.AF_UNIX, _socket.SOCK_STREAM)
+            addr = s.path
+        else:
+            c = _socket.socket(_socket.AF_INET, _socket.SOCK_STREAM)
+            addr = s.getsockname()
+        c.setblocking(False)
+        try:
+            c.connect(addr)
+        except (BlockingIOError, OSError):
+            pass
+        self.clients.append(c)
+        self.pending_conns += 1
+        self.conn_log.append((self.world.loop.time(), i))
+
+    def accept_all(self):
+        for s in self.socks:
+            if s.fileno() == -1:
+                continue
+            while True:
+                try:
+                    conn, _ = s.accept()
+                except (BlockingIOError, OSError):
+                    break
+                conn.close()
+        self.pending_conns = 0
 
     def _init_config(self, case):
         self.tmp = tempfile.mkdtemp(prefix='vfw-cfg-')
@@ -169,7 +231,17 @@ class History(object):
         try:
             self.world.close()
         finally:
-            if self.tmp is not None:
+            for c in getattr(self, 'clients', []):
+                try:
+                    c.close()
+                except OSError:
+                    pass
+            for s_ in getattr(self, 'socks', []):
+                try:
+                    s_.close()
+                except OSError:
+                    pass
+            if getattr(self, 'tmp', None) is not None:
                 shutil.rmtree(self.tmp, ignore_errors=True)
 
     # ------------------------------------------------------------------
@@ -202,6 +274,9 @@ class History(object):
             w.deliver_signal(op[1])
         elif kind == 'cfg':
             self.edit_config(op[1])
+        elif kind == 'conn':
+            if self.socks:
+                self.connect(op[1])
         else:
             raise ValueError("unknown op %r" % (op,))
 
